@@ -10,6 +10,7 @@
 #include "../lib/vf_run.h"
 #include "binson_light.h"
 #include <dirent.h>
+#include <sys/mman.h>
 
 enum {
     CT_INPUTS, CT_NODES, CT_EVALS, CT_ACCEPTED, CT_REJ_RANGE, CT_REJ_FORMAT, CT_REJ_MAXOBJ, CT_REJ_MAXARR, CT_TOK_SEQS, CT_DOCS, CT_MUT1, CT_MUT2,
@@ -248,6 +249,65 @@ static void on_trailing(const uint8_t *b, size_t n, int kind, const char *label,
 }
 static void trailing_family(void) { vf_trailing_inputs(on_trailing, NULL); }
 
+/* giant family: documents of about 2 GiB in a lazily backed mapping (neither verify nor the reference reads payload bytes): a string,
+ * a bytes value and a name of exactly INT32_MAX and INT32_MAX - 1 bytes - the largest lengths the format allows - complete, and with
+ * the closing byte one position early. Evaluated in place (no copy, no digest); identified in a replay by their index. */
+#define GIANT_CASES 12
+static uint8_t *giant_arena;
+static size_t giant_build(int idx, int *kind)
+{
+    const size_t cap = (size_t) INT32_MAX + 64;
+    if (!giant_arena) {
+        void *m = mmap(NULL, cap, PROT_READ | PROT_WRITE, MAP_PRIVATE | MAP_ANONYMOUS | MAP_NORESERVE, -1, 0);
+        if (m == MAP_FAILED) return 0;
+        giant_arena = (uint8_t *) m;
+    }
+    uint8_t *b = giant_arena;
+    int role = idx % 3, lenv = (idx / 3) % 2, early = idx / 6;     /* role 0 string, 1 bytes, 2 name */
+    size_t l = (size_t) INT32_MAX - (size_t) lenv, n = 0;
+    *kind = role == 2 ? VK_OBJ : VK_ARR;
+    b[n++] = role == 2 ? 0x40 : 0x42;
+    b[n++] = role == 1 ? 0x1a : 0x16;
+    for (int i = 0; i < 4; i++) b[n++] = (uint8_t) (l >> (8 * i));
+    size_t pay = n;
+    n += l;
+    /* the bytes around the end of the payload (the mapping is zero-filled; earlier cases wrote here too) */
+    memset(b + pay + l - 8, 'x', 8 + 3);
+    if (early) n--;
+    if (role == 2) b[n++] = 0x44;
+    b[n++] = role == 2 ? 0x41 : 0x43;
+    return n;
+}
+static bool giant_eval(int idx, bool counting)
+{
+    int kind;
+    size_t n = giant_build(idx, &kind);
+    static char label[100];
+    if (!n) return true;        /* no address space for the mapping: nothing to evaluate */
+    snprintf(label, sizeof label, "giant family case %d: %s of %s bytes%s", idx, idx % 3 == 0 ? "string" : idx % 3 == 1 ? "bytes" : "name", (idx / 3) % 2 ? "INT32_MAX - 1" : "INT32_MAX",
+             idx / 6 ? ", closing byte one position early" : "");
+    cur_in = giant_arena; cur_n = n; cur_kind = kind; cur_md = 2; cur_label = label;
+    int ref = vf_ref_decode(giant_arena, n, kind, 2, NULL);
+    binson_err err;
+    bool r = impl_verify(giant_arena, n, kind, 2, &err);
+    if (counting) { vf_count(CT_EVALS, 1); vf_count(CT_WIDTH_CASES, 1); vf_count(ref == VR_OK ? CT_ACCEPTED : ref == VR_RANGE ? CT_REJ_RANGE : CT_REJ_FORMAT, 1); }
+    if (r == (ref == VR_OK)) return true;
+    char msg[300], sig[160];
+    snprintf(msg, sizeof msg, "verify returned %s (error %d) but the reference recogniser says %s", r ? "true" : "false", (int) err, vf_vr_name[ref]);
+    snprintf(sig, sizeof sig, "verify:%s:ref=%s", r ? "accepts-malformed" : "rejects-wellformed", vf_vr_name[ref]);
+    if (counting) {
+        vf_str t = { 0 };
+        vf_str_printf(&t, "giant_case: %d\ninput_label: %s\nmismatch: %s\n", idx, label, msg);
+        vf_violation(sig, t.s);
+        vf_str_free(&t);
+    } else printf("replay: %s\n", msg);
+    return false;
+}
+static void giant_family(void)
+{
+    for (int i = 0; i < GIANT_CASES; i++) if (take()) giant_eval(i, true);
+}
+
 /* two adjacent names sharing a long common prefix, in every order relation: a comparison that truncates its length
  * (8 / 16 bits), stops at a NUL or mis-handles the prefix rule shows only here */
 static void name_order_family(void)
@@ -404,6 +464,7 @@ static void worker(int w, int W, uint64_t start)
     towers();
     width_family();
     trailing_family();
+    giant_family();
     name_order_family();
     corpus("valid_objects");
     corpus("bad_objects");
@@ -455,7 +516,13 @@ static void worker(int w, int W, uint64_t start)
 static void replay_main(void)
 {
     char *t = vf_replay_load(vf_g.replay);
-    char *root = vf_replay_get(t, "root"), *md = vf_replay_get(t, "max_depth"), *hex = vf_replay_get(t, "input_hex");
+    char *root = vf_replay_get(t, "root"), *md = vf_replay_get(t, "max_depth"), *hex = vf_replay_get(t, "input_hex"), *gc = vf_replay_get(t, "giant_case");
+    if (gc) {
+        vf_g.wid = 0;
+        if (!giant_eval(atoi(gc), false)) { printf("VIOLATION property=%s replay=%s\n", vf_g.prop, vf_g.replay); exit(VF_EXIT_VIOLATION); }
+        printf("replay: verify agrees with the reference recogniser\n");
+        exit(VF_EXIT_OK);
+    }
     if (!root || !md || !hex) vf_die("replay file lacks root/max_depth/input_hex");
     static uint8_t bytes[600000];
     long n = vf_unhex(bytes, sizeof bytes, hex);
